@@ -65,7 +65,7 @@ var interpPkgs = map[string]bool{
 	"internal/bytealg": true, "internal/abi": true, "sync/atomic": true, "sync": true, "unsafe": true,
 	"github.com/go-jose/go-jose/v4/jwt": true,
 	"github.com/m7913d/go-ntlm/ntlm":    true,
-	"net/textproto": true, "github.com/google/uuid": true, "github.com/go-jose/go-jose/v4": true, "internal/godebug": false,
+	"net/textproto": true, "github.com/google/uuid": true, "github.com/go-jose/go-jose/v4": true, "math/big": true, "internal/godebug": false,
 }
 
 var initPkgs = map[string]bool{
@@ -195,7 +195,7 @@ func (e *Engine) invoke(fr *Frame, ret ssa.Value, fn *ssa.Function, binds []Valu
 	}
 	if pkgPathOf(fn) == "log" {
 		if strings.Contains(fn.Name(), "Fatal") {
-			e.goPanic("fatal", "log.Fatal", nil)
+			e.goPanic("fatal", "log.Fatal", e.fatalValue())
 			panic(instrAbort{})
 		}
 		if strings.Contains(fn.Name(), "Panic") {
@@ -250,6 +250,16 @@ func (e *Engine) invoke(fr *Frame, ret ssa.Value, fn *ssa.Function, binds []Valu
 	}
 	e.st.frames = append(e.st.frames, nf)
 	e.st.taken = e.st.taken[:0]
+}
+
+// fatalValue is the panic value standing for a fatal exit: the harness package's vpFatalT.
+func (e *Engine) fatalValue() Value {
+	if e.HPkg != nil {
+		if t := e.HPkg.Type("vpFatalT"); t != nil {
+			return Iface{T: t.Type(), V: &StructV{}}
+		}
+	}
+	return nil
 }
 
 func pkgPathOf(fn *ssa.Function) string {
